@@ -102,6 +102,8 @@ type FnEnc struct {
 	skipPkgInv bool
 	structural []string
 	localObjs map[string]string
+	privCells []privCell
+	callFvs   map[string]Val // captured variables of the closure whose contract is being applied at a call
 	modAllowed map[string]func(string, string) string
 	modAllowedDone bool
 	symCache  map[int][]string
@@ -247,6 +249,8 @@ func (e *FnEnc) havocAll() {
 	for i, a := range imm {
 		olds[i] = e.heapArr(a.name, a.sort)
 	}
+	snaps := e.privSnapshot()
+	defer e.privRestore(snaps)
 	allocBefore := e.heapArr("$alloc", "(Array Int Bool)")
 	e.nepoch++
 	e.st.heap = map[string]string{}
@@ -771,7 +775,13 @@ func (e *FnEnc) findLoops() error {
 	for h := range e.loops {
 		hs = append(hs, h)
 	}
-	sort.Slice(hs, func(i, j int) bool { return e.loopPos(hs[i]) < e.loopPos(hs[j]) })
+	sort.Slice(hs, func(i, j int) bool {
+		pi, pj := e.loopPos(hs[i]), e.loopPos(hs[j])
+		if pi != pj {
+			return pi < pj
+		}
+		return hs[i].Index < hs[j].Index
+	})
 	for i, h := range hs {
 		e.loops[h].ordinal = i + 1
 	}
@@ -785,6 +795,9 @@ func (e *FnEnc) loopPos(h *ssa.BasicBlock) int {
 		for _, in := range b.Instrs {
 			if _, ok := in.(*ssa.DebugRef); ok {
 				continue
+			}
+			if _, ok := in.(*ssa.Phi); ok {
+				continue // a phi carries the position of the variable's declaration, which may precede the loop
 			}
 			if p := in.Pos(); p.IsValid() && (best == 0 || p < best) {
 				best = p
